@@ -140,15 +140,19 @@ def run(R):
             ex = f.cls.methods.get("__exit__")
             R.need(ex is not None, "anchor vanished: %s.__exit__" % f.cls.qualname)
             ecfg = cfg_of(ex)
-            resets = [x for x, cc in kit.call_sites(ex, lambda cc: q.call_name(cc) == "%s.reset" % mode_var and cc.args and q.src(cc.args[0]) == tok)]
+            tok_names = set([tok])
+            for nn in q.scope_nodes(ex.node):
+                if isinstance(nn, ast.Assign) and q.src(nn.value) == tok:
+                    tok_names.update(t.id for t in nn.targets if isinstance(t, ast.Name))
+            resets = [x for x, cc in kit.call_sites(ex, lambda cc: q.call_name(cc) == "%s.reset" % mode_var and cc.args and q.src(cc.args[0]) in tok_names)]
 
             def no_token(nd):
                 if nd.kind != "test":
                     return None
                 k, s, pos = q.atom_test(nd.ast)
-                if (k == "truth" and s == tok):
+                if (k == "truth" and s in tok_names):
                     return "F" if pos else "T"
-                if k == "isnone" and s == tok:
+                if k == "isnone" and s in tok_names:
                     return "T" if pos else "F"
                 return None
 
@@ -209,6 +213,11 @@ def run(R):
             "the tuple arm returns `%s`" % (q.src(r) if r is not None else None))
     r = ret_of("dict")
     okd = isinstance(r, ast.DictComp) and q.src(r.generators[0].iter).startswith("zip(%s.keys()," % par) and isinstance(r.key, ast.Name)
+    okd = okd or (isinstance(r, ast.Call) and q.call_name(r) == "dict" and len(r.args) == 1 and q.src(r.args[0]).startswith("zip(%s.keys()," % par))
+    # ... and the values come from the wait-for-all helper
+    darm = arms.get("dict")
+    gath = [c for st_ in (darm.body if darm is not None else []) for c in q.calls(st_) if q.call_name(c) == "_gather"]
+    okd = okd and len(gath) == 1
     R.check(okd, "C15.STRUCT", ra.qualname + ":dict-shape", R.site(ra), "a dict resolves to a dict with the same keys in the same order", "the dict arm does not rebuild the dict from its own keys in order")
     raises = default_raise
     R.check(len(raises) == 1 and (q.call_name(raises[0].exc) == "TypeError"), "C15.STRUCT", ra.qualname + ":default", R.site(ra),
